@@ -63,7 +63,8 @@ pub struct Model {
     pub soft: BTreeSet<u32>,
     pub charged: BTreeMap<u64, (u32, i64)>,
     pub total: i64,
-    pub index: BTreeMap<u64, Dur>,
+    /// expiry index entries (key id, expiry); an id may (through a defect) sit in several shards
+    pub index: BTreeSet<(u64, Dur)>,
     pub stats: Stats,
     pub tick_pending: bool,
     /// upsert / delete issued with Wait::Later whose queued part has not been awaited yet
@@ -90,7 +91,7 @@ impl Model {
             soft: BTreeSet::new(),
             charged: BTreeMap::new(),
             total: 0,
-            index: BTreeMap::new(),
+            index: BTreeSet::new(),
             stats: Stats::default(),
             tick_pending: false,
             pending: vec![],
@@ -149,6 +150,25 @@ impl Model {
         }
     }
 
+    /// TTLTicker::put: the shard of `e` maps the id to `e` (replacing an entry of that id there)
+    fn index_put(&mut self, id: u64, e: Dur) {
+        let shards = self.cfg.shards as u64;
+        let same: Vec<(u64, Dur)> = self.index.iter().filter(|(i, x)| *i == id && x.s % shards == e.s % shards).copied().collect();
+        for x in same {
+            self.index.remove(&x);
+        }
+        self.index.insert((id, e));
+    }
+
+    /// TTLTicker::delete: remove the id from the shard of `e`
+    fn index_delete(&mut self, id: u64, e: Dur) {
+        let shards = self.cfg.shards as u64;
+        let same: Vec<(u64, Dur)> = self.index.iter().filter(|(i, x)| *i == id && x.s % shards == e.s % shards).copied().collect();
+        for x in same {
+            self.index.remove(&x);
+        }
+    }
+
     fn evict_id(&mut self, id: u64) {
         if let Some((key, w)) = self.charged.remove(&id) {
             self.total -= w;
@@ -165,11 +185,12 @@ impl Model {
     fn sweep(&mut self, now: Dur) -> Vec<u64> {
         let shards = self.cfg.shards as u64;
         let shard = now.s % shards;
-        let due: Vec<u64> =
-            self.index.iter().filter(|(_, e)| e.s % shards == shard && now > **e).map(|(id, _)| *id).collect();
-        for id in &due {
-            self.index.remove(id);
-            self.evict_id(*id);
+        let due_entries: Vec<(u64, Dur)> = self.index.iter().filter(|(_, e)| e.s % shards == shard && now > *e).copied().collect();
+        let mut due = vec![];
+        for (id, e) in due_entries {
+            self.index.remove(&(id, e));
+            self.evict_id(id);
+            due.push(id);
         }
         due
     }
@@ -391,7 +412,7 @@ impl Model {
                 self.stats.keys_added += 1;
                 self.stats.weight_added = self.stats.weight_added.wrapping_add(w as u64);
                 if let Some(e) = expiry {
-                    self.index.insert(id, e);
+                    self.index_put(id, e);
                 }
             }
             St::RejNoSpace => {
@@ -483,15 +504,16 @@ impl Model {
         let mut upd = weight.or_else(|| val.map(|v| weight_of(&self.cfg.weight_fn, key, v, ttl.is_some())));
         match (existing_expiry, new_expiry) {
             (None, Some(n)) => {
-                self.index.insert(id, n);
+                self.index_put(id, n);
                 upd = upd.or(Some(existing_w.saturating_add(TTL_ENTRY)));
             }
-            (Some(_), None) => {
-                self.index.remove(&id);
+            (Some(o), None) => {
+                self.index_delete(id, o);
                 upd = upd.or(Some(existing_w - TTL_ENTRY));
             }
             (Some(o), Some(n)) if o != n => {
-                self.index.insert(id, n);
+                self.index_delete(id, o);
+                self.index_put(id, n);
             }
             _ => {}
         }
@@ -538,8 +560,8 @@ impl Model {
                 self.total -= w;
                 self.stats.weight_removed = self.stats.weight_removed.wrapping_add(w as u64);
             }
-            if e.expiry.is_some() {
-                self.index.remove(&e.id);
+            if let Some(x) = e.expiry {
+                self.index_delete(e.id, x);
             }
             if let Some(got) = st {
                 if got != St::Accepted {
@@ -625,6 +647,7 @@ impl Model {
         }
         let shards = self.cfg.shards as u64;
         let mut exp_index: Vec<(usize, u64, Dur)> = self.index.iter().map(|(id, e)| ((e.s % shards) as usize, *id, *e)).collect();
+        exp_index.dedup();
         exp_index.sort();
         if exp_index != o.expiry_index {
             out.push(Mis {
